@@ -168,7 +168,6 @@ class Prop:
         allow_k1 = cfg.get("allow_k1", False)
         world.allow_k3 = cfg.get("allow_k3", False)
         world.del_enabled = True
-        self._allow_k5 = cfg.get("allow_k5", False)
         self._allow_k4 = cfg.get("allow_k4", False)
         ops = trace["ops"]
         for i, op in enumerate(ops):
@@ -253,15 +252,6 @@ class Prop:
     def step(self, world, handlers, op, i, env, sched, records, pending_expect, stats,
              allow_k1, probe=False, pre=None):
         k = op["k"]
-        if k == "del_attr" and handlers and not self._allow_k5:
-            # K5 guard: deleting a trait that a live registration looks *through*
-            tm = world.mnodes[world.idx(op.get("o", 0))]
-            for h in handlers:
-                if G.tkey(tm, op["name"]) in G.nonterminal_keys(h.expr, world.model(h.root_uid)):
-                    env.log("k5-guard-skip", k)
-                    env.probe("k5-guard-skip")
-                    env.token("k5skip")
-                    return
         if not probe and handlers and k not in ("gc", "drop", "probe") and not allow_k1:
             # model-side guard for known finding K1: refuse ops after which one
             # observable would be matched at two depths of one branch
